@@ -19,10 +19,12 @@ def gen(tier, seed):
     for a, b in ((34, 34), (35, 34), (34, 35), (1008, 34), (0, 1), (0, 0), (65535, 65535), (65534, 65535), (65535, 65536)):
         cs.append(dict(DEFAULT, cltv=a, pdelta=b))          # equal and swapped deltas
     cs.append(dict(DEFAULT, noself=True))
+    # the xpay flag changes the shape of the pay request, not the values it must carry
+    cs.append(dict(DEFAULT, xpay=True)); cs.append(dict(DEFAULT, xpay=True, cltv=6, paytimeout=7)); cs.append(dict(DEFAULT, xpay=True, paytimeout=65536))
     n = 300 if tier == "thorough" else 12
     for _ in range(n):
         cs.append({"cltv": r.choice(VALS), "pdelta": r.choice(VALS), "base": r.choice(VALS), "ppm": r.choice(VALS), "mpp": r.choice([0, 1, 2, -1]),
-                   "noself": r.chance(1, 2), "paytimeout": r.choice(VALS)})
+                   "noself": r.chance(1, 2), "paytimeout": r.choice(VALS), "xpay": r.chance(1, 2)})
     if tier != "thorough":
         cs = cs[:1] + [c for i, c in enumerate(cs[1:]) if True]
     out, seen = [], set()
@@ -34,7 +36,7 @@ def gen(tier, seed):
 def options_of(c):
     return {"trampoline-cltv-delta": c["cltv"], "trampoline-policy-cltv-delta": c["pdelta"], "trampoline-policy-fee-base": c["base"],
             "trampoline-policy-fee-per-satoshi": c["ppm"], "trampoline-mpp-timeout": c["mpp"], "trampoline-no-self-route-hints": c["noself"],
-            "trampoline-payment-timeout": c["paytimeout"], "trampoline-xpay": False}
+            "trampoline-payment-timeout": c["paytimeout"], "trampoline-xpay": bool(c.get("xpay", False))}
 
 def probe(binary, c, idx, local_id, b11, b11_self):
     """Starts the binary with configuration c and observes what it runs with."""
@@ -81,7 +83,9 @@ def probe(binary, c, idx, local_id, b11, b11_self):
         rb = n.wait_reply("b", 15)
         pays = [p for m, p in n.rpc_log if m == "pay"]
         if pays:
-            ob["retry"] = pays[0].get("retry_for"); ob["maxdelay"] = pays[0].get("maxdelay")
+            # a parameter missing from the request is not "the configured value": it shows as an impossible number
+            ob["retry"] = pays[0]["retry_for"] if pays[0].get("retry_for") is not None else 2**41
+            ob["maxdelay"] = pays[0]["maxdelay"] if pays[0].get("maxdelay") is not None else 2**41
         else:
             ob["retry"] = 2**40; ob["maxdelay"] = 2**40
         # (c) self route hint
@@ -121,7 +125,7 @@ def term(c, ob):
 
 def run(tier, seed):
     o = Outcome("C19", tier, seed)
-    o.rule = ("option assignments: each integer option through {-1,0,1,33,34,35,1008,65535,65536,2^32-1,2^32,2^63-1} with the others at their defaults, equal and swapped deltas, the flag, plus random "
+    o.rule = ("option assignments: each integer option through {-1,0,1,33,34,35,1008,65535,65536,2^32-1,2^32,2^63-1} with the others at their defaults, equal and swapped deltas, the self-route-hint flag, the xpay flag, plus random "
               "combinations; for each the REAL binary is started against the fake lightningd and observed: init acknowledged vs process exit; policy bytes of a fee-insufficient failure; retry_for and "
               "maxdelay of a pay request (HTLC expiring 60 blocks above the height); time to the MPP failure; answer to an invoice with the local node as last hop. "
               "Non-trivial: the configuration is accepted by the model (all probes run) or differs from the defaults in a refusing way; distinct = distinct assignment")
